@@ -134,6 +134,31 @@ fn run_fn(name: &str, f: &[Vec<u8>]) -> (String, Vec<Vec<u8>>) {
                 crate::check::channels_import(&lib);
                 vec![b"accept".to_vec()]
             }
+            "file_self_use" => {
+                // args: macro name, one `use` item -> (imported path | "-", remaining tree | "-")
+                let um = crate::use_macro::UseMacro::new(&arg(0));
+                let iu = syn::parse_str::<syn::ItemUse>(&arg(1)).expect("not a use item");
+                let (p, t) = um.file_self_use(&iu.tree);
+                let ps = match p { Some(p) => quote::quote!(#p).to_string(), None => "-".to_string() };
+                let ts = match t { Some(t) => quote::quote!(#t).to_string(), None => "-".to_string() };
+                vec![ps.into_bytes(), ts.into_bytes()]
+            }
+            "use_is" => {
+                // args: macro name, file text, attribute text: every `use` item of the file goes through
+                // `update` in order, then `is(attr)`
+                let mut um = crate::use_macro::UseMacro::new(&arg(0));
+                let file = syn::parse_file(&arg(1)).expect("file does not parse");
+                for it in file.items { if let syn::Item::Use(u) = it { let _ = um.update(u); } }
+                let text = format!("{} fn foo(){{}}", arg(2));
+                let item = syn::parse_str::<syn::ItemFn>(&text).expect("attr does not parse");
+                let a = item.attrs.into_iter().next().expect("no attr");
+                vec![format!("{}", um.is(&a)).into_bytes()]
+            }
+            "pretty" => {
+                // canonical printing (the printer `write::write_file` uses) of any source text
+                let file = syn::parse_file(&arg(0)).expect("file does not parse");
+                vec![prettyplease::unparse(&file).into_bytes()]
+            }
             _ => panic!("unknown fn job {}", name),
         }
     }));
